@@ -87,6 +87,8 @@ def run(ctx):
         py, hv = concrete(v["v"])
         add("gen", py, hv=hv)
         add("round", py, hv=hv)
+        if v["v"]["t"] != "atom" and i % 3 == 0:
+            add("genshared", py, hv=hv, why="equal parts are one object")
         style = (i + ctx.seed) % 4
         add("parse", py, text=to_text(py, ascii_=(style % 2 == 0), ws=(style // 2)))
         if i % 7 == 0:
@@ -113,6 +115,10 @@ def run(ctx):
                 py, hv = mk(py0, hv0, n)
                 add("gen", py, hv=hv, why="large:%s:%d" % (tag_, n)); add("round", py, hv=hv, why="large:%s:%d" % (tag_, n))
                 add("parsegen", py, text=to_text(py, ascii_=bool(n % 2), ws=0), why="large:%s:%d" % (tag_, n)); nbig += 3
+    for v in rnd.sample(vecs, 40 if ctx.tier == "quick" else 400):
+        py0, hv0 = concrete(v["v"])
+        py, hv = Pairs([("前", [py0, 1.0]), ("后", [py0, 1.0]), ("又", py0)]), {"t": "dict", "k": ["前", "后", "又"], "d": [{"t": "list", "i": [hv0, {"t": "num", "s": "1"}]}, {"t": "list", "i": [hv0, {"t": "num", "s": "1"}]}, hv0]}
+        add("genshared", py, hv=hv, why="the same value at several places")
     longtext = "长" * 70000 + "\"" + "x\n" * 30000
     pyl = Pairs([("文", longtext), ("尾", 1.0)])
     add("gen", pyl, hv={"t": "dict", "k": ["文", "尾"], "d": [{"t": "str", "v": longtext}, {"t": "num", "s": "1"}]}, why="large:text")
@@ -177,7 +183,7 @@ def run(ctx):
                 if same.get("v") is not True:
                     rep("after-refusal:roundtrip", "解析JSON(生成JSON(v)) 为 v is %s after a refused generation" % same)
             continue
-        if op in ("gen", "parsegen"):
+        if op in ("gen", "parsegen", "genshared"):
             # (parsegen: a document parsed and generated again - values nested deeper than the harness's snapshot are compared as text)
             if r["obs"] != "value" or r["val"].get("t") != "str":
                 rep("no-text", "%s did not return a text: %s %s" % ("生成JSON" if op == "gen" else "生成JSON(解析JSON(document))" + why, r["obs"], r.get("msg"))); continue
